@@ -742,3 +742,28 @@ def report(ctx, st, q, **kw):
                           failures_by_family={str(k): len(v) for k, v in [(STRAY, [f for f in st.fails if f[0] == STRAY]), (READER_UB, [f for f in st.fails if f[0] == READER_UB]), ('unclassified', [f for f in st.fails if f[0] is None])]},
                           documented_model_deviations=st.deviations, impl_matches_x86_model_variant=st.x86_variant, files_safe_by_safe_file=st.safe_files, alloc_limit_crashes_model_ok=st.oom,
                           op_sequences=kw.get('nseq', 0), seconds_impl=round(st.t_impl, 1), seconds_model=round(st.t_model, 1), processes=NPROC))
+
+# ---------------------------------------------------------------------------------------------------------------
+# C13: malformed .ninja_deps streams for the aggregator of tools/props/c13.py (crash/sanitizer only, no oracle)
+def fuzz_lines(rnd, n):
+    L = []
+    D = 0x80000000
+    def both(f): L.append('load ' + file_tok(f)); L.append('recompact %s -' % file_tok(f))
+    # ids at and around the end of the node table, for table sizes at and around the vector's capacity steps
+    for k in (0, 1, 2, 3, 4, 5, 7, 8, 9, 15, 16, 17, 31, 32, 33, 64, 128, 255, 256, 1024):
+        pre = HDR + b''.join(enc_path(i, b'p%d' % i) for i in range(k))
+        for did in (k - 1, k, k + 1, 2 * k, -1):
+            both(pre + W(D | 16, 0, 5, 0, did))
+            both(pre + W(D | 20, 0, 5, 0, 0, did) + enc_path(k, b'next'))
+        for oid in (k, k + 1, -1): both(pre + W(D | 12, oid, 5, 0) + (enc_path(k, b'next') if k % 2 else b''))
+    for prefix in (HDR, HDR + enc_path(0, b'a') + enc_path(1, b'bb'), HDR + enc_path(0, b'a') + enc_path(1, b'bb') + enc_deps(0, 5, [1])):
+        for _, rec in handmade(): both(prefix + rec)
+    while len(L) < n:
+        r = rnd.random()
+        pre = HDR + b''.join(enc_path(i, mk_path(rnd, rnd.randrange(1, 9)) + b'%d' % i) for i in range(rnd.choice((0, 1, 2, 3, 4, 8))))
+        if r < 0.3: f = pre + bytes(rnd.randrange(256) for _ in range(rnd.randrange(0, 40)))
+        elif r < 0.8: f = pre + W(*[rnd.choice(WORDS_T) for _ in range(rnd.randrange(1, 9))]) + bytes(rnd.randrange(256) for _ in range(rnd.choice((0, 0, 1, 2, 3))))
+        elif r < 0.9: f = bytes(rnd.randrange(256) for _ in range(rnd.randrange(0, 30)))
+        else: f = (HDR[:rnd.randrange(len(HDR) + 1)] + bytes(rnd.randrange(256) for _ in range(rnd.randrange(0, 8))))
+        both(f)
+    return L
